@@ -165,6 +165,16 @@ fn g_entity_boundary(_rng: &mut Rng, _n: usize) -> Vec<Case> {
             ));
         }
     }
+    // two levels: a reference inside an element that the OUTER entity opened (and closes, or leaves open),
+    // the inner replacement text closing it or not; either declaration order (ranges of the patched end tag)
+    for inner in ["</q>", "<i/></q>", "x</q>", "<i></i></q>", "<i/></q><q>", "</q></a>", "<i/>", "<i/></q><i/>"] {
+        for outer in ["<q>&e;", "<q>&e;</q>", "<q>x&e;", "<q><j/>&e;", "<q>&e;<k/>"] {
+            for d in ["<a>&o;</a>", "<a>&o;</q></a>", "<a><q>&o;</q></a>"] {
+                out.push(case(true, format!("<!DOCTYPE a [<!ENTITY e '{}'><!ENTITY o '{}'>]>{}", inner, outer, d)));
+                out.push(case(true, format!("<!DOCTYPE a [<!ENTITY o '{}'><!ENTITY e '{}'>]>{}", outer, inner, d)));
+            }
+        }
+    }
     // replacement text whose names are resolved where it is referenced: the same bytes under different
     // namespace bindings (C06, C12: two attributes with one source range but different expanded names)
     for v in ["<a p:x=\"1\"/>", "<p:a x=\"1\"/>", "<a p:x=\"1\" q:x=\"1\"/>", "<a x=\"1\" p:x=\"1\"><p:b p:y=\"2\"/></a>", "<a xml:lang=\"en\" p:x=\"1\"/>"] {
@@ -740,6 +750,15 @@ fn g_ns(rng: &mut Rng, n: usize) -> Vec<Case> {
             (_, 1) => format!("{}{}{}{}{}{}{}{}", open(&el[0]), open(&el[1]), open(&el[2]), close(&el[2]), close(&el[1]), open(&el[3]), close(&el[3]), close(&el[0])),
             _ => format!("{}{}{}{}{}{}{}{}", open(&el[0]), open(&el[1]), close(&el[1]), open(&el[2]), open(&el[3]), close(&el[3]), close(&el[2]), close(&el[0])),
         };
+        // every fourth document a second time with its namespace names supplied through entities,
+        // declared once, twice with different values (the first declaration binds), or empty
+        if rng.below(4) == 0 {
+            let subsets = ["<!ENTITY u 'u'><!ENTITY v 'v'>", "<!ENTITY u 'u'><!ENTITY u 'v'><!ENTITY v 'v'><!ENTITY v 'u'>",
+                "<!ENTITY v 'v'><!ENTITY u 'u'><!ENTITY u ''>", "<!ENTITY u 'v'><!ENTITY v 'u'><!ENTITY u 'u'>",
+                "<!ENTITY w 'u'><!ENTITY u '&w;'><!ENTITY v 'v'><!ENTITY w 'v'>"];
+            let body = text.replace("='u'", "='&u;'").replace("='v'", "='&v;'");
+            out.push(case(true, format!("<!DOCTYPE a [{}]>{}", rng.pick(&subsets), body)));
+        }
         out.push(case(false, text));
     }
     out
